@@ -469,6 +469,7 @@ func Nitro(wdt float64, subd int, zeit int, g *GlobalVarsMain, l *NitroSharedVar
 
 		if g.SAAT2[g.AKF.Index] <= zeit && g.AUTOMAN {
 			if g.ODU[g.AKF.Index-1] == 1 && g.ORGTIME[g.AKF.Index-1] == "H" {
+				g.NFOS[0] = g.NFOS[0] + g.NSAS[g.AKF.Index-1]
 				g.NAOS[0] = g.NAOS[0] + g.NLAS[g.AKF.Index-1]
 				ln.DODAT = g.Kalender(zeit)
 				ln.DOMENG1 = g.NSAS[g.AKF.Index-1] + g.NLAS[g.AKF.Index-1] + g.NDIR[g.AKF.Index-1]
